@@ -82,7 +82,7 @@ type solveOpts struct {
 }
 
 // discharge runs the portfolio on one obligation.
-func discharge(o *Obligation, prelude, weak string, opts solveOpts, idx int) {
+func discharge(o *Obligation, prelude, weak string, opts solveOpts, idx int, interest []interestTerm) {
 	if o.Tainted != "" {
 		o.Verdict = "unsupported"
 		return
@@ -137,7 +137,11 @@ func discharge(o *Obligation, prelude, weak string, opts solveOpts, idx int) {
 	if o.Verdict != "unsat" && o.Verdict != "conflict" {
 		// look for a (candidate) counterexample in the quantifier-free weakening
 		mfile := file + ".model.smt2"
-		wq := weak + "(assert " + o.Reach.S + ")\n(assert (not " + o.Goal.S + "))\n(check-sat)\n(get-model)\n"
+		wq := weak + "(assert " + o.Reach.S + ")\n(assert (not " + o.Goal.S + "))\n(check-sat)\n"
+		for _, it := range interest {
+			wq += "(echo \"@@" + it.Name + "\")\n(get-value (" + it.T.S + "))\n"
+		}
+		wq += "(echo \"@@model\")\n(get-model)\n"
 		os.WriteFile(mfile, []byte(wq), 0o644)
 		v, out, d := runSolver(solvers[0], mfile, opts.timeoutS)
 		o.Time += d
@@ -148,6 +152,7 @@ func discharge(o *Obligation, prelude, weak string, opts solveOpts, idx int) {
 		case "sat":
 			o.Verdict = "sat"
 			o.Model = out
+			o.Inputs = parseInputs(out)
 		}
 		if !opts.keep {
 			os.Remove(mfile)
@@ -176,6 +181,12 @@ type job struct {
 	prelude *string
 	weak    *string
 	idx     int
+	interest []interestTerm
+}
+
+type interestTerm struct {
+	Name string
+	T    Term
 }
 
 func dischargeAll(jobs []job, opts solveOpts, workers int) {
@@ -186,7 +197,7 @@ func dischargeAll(jobs []job, opts solveOpts, workers int) {
 		go func() {
 			defer wg.Done()
 			for j := range ch {
-				discharge(j.o, *j.prelude, *j.weak, opts, j.idx)
+				discharge(j.o, *j.prelude, *j.weak, opts, j.idx, j.interest)
 			}
 		}()
 	}
@@ -195,4 +206,51 @@ func dischargeAll(jobs []job, opts solveOpts, workers int) {
 	}
 	close(ch)
 	wg.Wait()
+}
+
+// parseInputs extracts the (get-value ...) answers for the function's inputs from solver output.
+func parseInputs(out string) map[string]string {
+	m := map[string]string{}
+	parts := strings.Split(out, "@@")
+	for _, p := range parts[1:] {
+		nl := strings.Index(p, "\n")
+		if nl < 0 {
+			continue
+		}
+		name := strings.Trim(strings.TrimSpace(p[:nl]), "\"")
+		if name == "model" {
+			break
+		}
+		val := strings.TrimSpace(p[nl+1:])
+		// ((term value))
+		val = strings.TrimSuffix(strings.TrimPrefix(val, "(("), "))")
+		// drop the echoed term: value is the last s-expression
+		val = lastSexp(val)
+		m[name] = val
+	}
+	return m
+}
+
+func lastSexp(s string) string {
+	s = strings.TrimSpace(s)
+	if s == "" {
+		return s
+	}
+	if s[len(s)-1] != ')' {
+		i := strings.LastIndexAny(s, " \n")
+		return s[i+1:]
+	}
+	depth := 0
+	for i := len(s) - 1; i >= 0; i-- {
+		switch s[i] {
+		case ')':
+			depth++
+		case '(':
+			depth--
+			if depth == 0 {
+				return s[i:]
+			}
+		}
+	}
+	return s
 }
